@@ -28,7 +28,11 @@ const STRS: [&str; 16] = [
     "", "plain", "line1\nline2", "line1\nline2\n", " lead", "trail ", "  ", "a<b>&\"c'", "cr\rx", "\u{1F600}\u{10FFFF}", "tab\there", "\n",
     "a\r\nb", "]]>", "&amp;", "\u{e9}",
 ];
-const NOTES: [&str; 10] = ["a note", "x & y <z>", "line1\nline2", " lead", "trail ", "", "  ", "\u{1F600}", "a\tb", "two  blanks"];
+const NOTES: [&str; 14] = [
+    "a note", "x & y <z>", "line1\nline2", " lead", "trail ", "", "  ", "\u{1F600}", "a\tb", "two  blanks",
+    // line ends inside the text (not at the ends, where trimming is the recorded finding)
+    "a\r\nb", "a\rb", "l1\r\n\r\nl2\rl3", "cr\r end",
+];
 
 fn pk<'a>(rng: &mut Rng, xs: &[&'a str]) -> &'a str {
     xs[rng.below(xs.len())]
@@ -120,7 +124,7 @@ pub fn gen_glyph(rng: &mut Rng, plain: bool) -> Glyph {
     let n = rng.below(3);
     g.codepoints = Codepoints::new((0..n).map(|_| *rng.pick(&['A', 'a', '\u{e9}', '\u{1F600}', '\u{10FFFF}', '\u{0}'])));
     if rng.chance(1, 2) {
-        g.note = Some(if plain { rng.pick(&["a note", "x & y <z>", "line1\nline2", "\u{1F600}", "two  blanks"]).to_string() } else { rng.pick(&NOTES).to_string() });
+        g.note = Some(if plain { rng.pick(&["a note", "x & y <z>", "line1\nline2", "\u{1F600}", "two  blanks", "a\r\nb", "a\rb", "l1\r\n\r\nl2\rl3"]).to_string() } else { rng.pick(&NOTES).to_string() });
     }
     if rng.chance(1, 3) {
         g.image = Some(Image::new(PathBuf::from(*rng.pick(&["img.png", "a b.png", "\u{e9}.jpg", "x&y.png"])), color(rng), transform(rng)).unwrap());
@@ -218,6 +222,16 @@ pub fn witness(k: usize) -> Option<Glyph> {
             g.height = -0.0;
             g.codepoints = Codepoints::new(['A', '\u{1F600}']);
             g.note = Some("n".into());
+        }
+        10 => g.note = Some("a\r\nb".into()),
+        11 => g.note = Some("a\rb".into()),
+        12 => {
+            g.note = Some("l1\r\n\r\nl2\rl3 &amp; <x>".into());
+            let mut p = ContourPoint::new(1.0, 2.0, PointType::Line, false, Some(Name::new("Q&A <\"x\">").unwrap()), Some(Identifier::new("i&<>\"'").unwrap()));
+            let mut d = Plist::new();
+            d.insert("k".into(), plist::Value::Boolean(true));
+            p.replace_lib(d);
+            g.contours.push(Contour::new(vec![p], Some(Identifier::new("c&amp;").unwrap())));
         }
         _ => return None,
     }
